@@ -143,7 +143,7 @@ Print Assumptions C14_history_wire.
    same query dict; headers as the previous build left them; body / data /
    fargs never carry over). *)
 Theorem C14_carry_over : forall host port st a,
-  let r := request_of st in
+  let r := effective (request_of st) in
   let r' := request_of (reinit (snd (build_step host port st)) a) in
   q_method r' = match a_method a with Some m => m | None => q_method r end /\
   q_path r' = match a_path a with Some p => p | None => q_path r end /\
@@ -160,12 +160,37 @@ Print Assumptions C14_carry_over.
 (* a bare Client.transmit() (constructor request, backendRequest, the resend after an event
    stream reconnect) sends the held request again: body / data / form fields included *)
 Theorem C14_resend : forall host port st,
-  let r := request_of st in
+  let r := effective (request_of st) in
   let r' := request_of (apply_args (snd (build_step host port st)) bare_args) in
   q_method r' = q_method r /\ q_path r' = q_path r /\ q_qargs r' = q_qargs r /\
   q_body r' = q_body r /\ q_headers r' = final_headers r.
 Proof. exact resend_request. Qed.
 Print Assumptions C14_resend.
+
+(* a url given as path= may carry a query and a fragment: what is sent is the *effective*
+   request (bare path; the query's arguments merged into the query dict); the fragment is not
+   part of it, so it never reaches the wire; a url without '?' and '#' is taken as it is *)
+Theorem C14_url_path : forall o host port ops st, wf_endpoint host port = true ->
+  Forall (fun rw => snd rw = build host port (fst rw) /\
+                    (wf_request (fst rw) = true ->
+                     exists p, parse_request o (snd rw) = Ok p /\ recovered (fst rw) p = true))
+         (history host port st ops)
+  /\ (forall r, mem_n 35 (q_path r) = false -> mem_n 63 (q_path r) = false -> effective r = r).
+Proof.
+  intros o host port ops st Hep. split; [|exact effective_plain].
+  pose proof (history_wire host port ops st) as Hw. pose proof (history_roundtrip o host port ops st) as Hr.
+  rewrite Forall_forall in *. intros rw Hin. split; [now apply Hw|].
+  intros Hwf. apply (Hr rw Hin). now apply roundtrip_general.
+Qed.
+Print Assumptions C14_url_path.
+
+Example C14_url_example :
+  let st := state_of {| q_method := str "PUT"; q_path := str "/doc/7?rev=2&a+b=c%20d#section two " ++ [252];
+                        q_qargs := [(str "rev", str "1"); (str "k", str "v")]; q_headers := []; q_body := Raw (str "x") |} in
+  map (fun rw => (q_path (fst rw), q_qargs (fst rw), firstn 41 (snd rw))) (history ghost 8080 st [no_args]) =
+  [ (str "/doc/7", [(str "rev", str "2"); (str "k", str "v"); (str "a b", str "c d")], str "PUT /doc/7?rev=2&k=v&a+b=c+d HTTP/1.1" ++ [13; 10; 72; 111]);
+    (str "/doc/7", [(str "rev", str "2"); (str "k", str "v"); (str "a b", str "c d")], str "PUT /doc/7?rev=2&k=v&a+b=c+d HTTP/1.1" ++ [13; 10; 72; 111]) ].
+Proof. vm_compute. reflexivity. Qed.
 
 (* Hence the single-request round trip lifts to every build of every history. *)
 Theorem C14_history_lift : forall o host port ops st,
